@@ -301,4 +301,278 @@ theorem treeEqv_frac_sound {o : Ops K} (ho : OrderedEqLike o) (env : Nat → K) 
   · exact fracEq_sound ho.toFieldLike hl env hd1 hd2
 
 end ordered
+/-! ### pure order reasoning: sound in every commutative ring with a linear order (no compatibility assumed) -/
+section lin
+variable {α : Type} [CommRing α] [LinearOrder α]
+
+structure LinLike (o : Ops α) : Prop extends RingLike o where
+  lt : ∀ a b, o.lt a b = decide (a < b)
+  le : ∀ a b, o.le a b = decide (a ≤ b)
+  eq : ∀ a b, o.eq a b = decide (a = b)
+  lit_mono : ∀ n m : Int, -1073741824 ≤ n → n < m → m ≤ 1073741824 → o.lit n 1 < o.lit m 1
+
+variable {o : Ops α}
+
+theorem nodeEq_sound (ho : LinLike o) (env : Nat → α) {a b : E} (h : nodeEq a b = true) :
+    a.eval o env = b.eval o env := by
+  simp only [nodeEq, Bool.or_eq_true, beq_iff_eq] at h
+  rcases h with h | h
+  · rw [h]
+  · exact polyEq_sound' ho.toRingLike h env
+
+theorem smallLit_eq {e : E} {n : Int} (h : smallLit e = some n) :
+    e = .lit n 1 ∧ -1073741824 ≤ n ∧ n ≤ 1073741824 := by
+  unfold smallLit at h
+  split at h
+  · rename_i m
+    split at h
+    · rename_i hc
+      simp only [Option.some.injEq] at h; subst h
+      simp only [Bool.and_eq_true, decide_eq_true_eq] at hc
+      exact ⟨rfl, hc.1, hc.2⟩
+    · cases h
+  · cases h
+
+theorem litLT_sound (ho : LinLike o) (env : Nat → α) {x y : E} (h : litLT x y = true) :
+    x.eval o env < y.eval o env := by
+  unfold litLT at h
+  split at h
+  · rename_i n m hn hm
+    obtain ⟨rfl, h1, _⟩ := smallLit_eq hn
+    obtain ⟨rfl, _, h2⟩ := smallLit_eq hm
+    simp only [decide_eq_true_eq] at h
+    exact ho.lit_mono n m h1 h h2
+  · cases h
+
+theorem litLE_sound (ho : LinLike o) (env : Nat → α) {x y : E} (h : litLE x y = true) :
+    x.eval o env ≤ y.eval o env := by
+  unfold litLE at h
+  split at h
+  · rename_i n m hn hm
+    obtain ⟨rfl, h1, _⟩ := smallLit_eq hn
+    obtain ⟨rfl, _, h2⟩ := smallLit_eq hm
+    simp only [decide_eq_true_eq] at h
+    rcases lt_or_eq_of_le h with h | h
+    · exact le_of_lt (ho.lit_mono n m h1 h h2)
+    · subst h; exact le_refl _
+  · cases h
+
+/-- every edge of the path's order graph holds -/
+def EdgesHold (o : Ops α) (env : Nat → α) (es : List (E × E × Bool)) : Prop :=
+  ∀ e ∈ es, e.1.eval o env ≤ e.2.1.eval o env ∧ (e.2.2 = true → e.1.eval o env < e.2.1.eval o env)
+
+theorem pathEdges_sound (ho : LinLike o) (env : Nat → α) {np : Path} (hp : PathHolds o env np) :
+    EdgesHold o env (edgesOf np) := by
+  intro e he
+  simp only [edgesOf, pathEdges, List.mem_filterMap] at he
+  obtain ⟨cb, hmem, hcb⟩ := he
+  have hc := hp cb hmem
+  split at hcb
+  · rename_i a b
+    simp only [Option.some.injEq] at hcb; subst hcb
+    simp only [C.eval, ho.lt, decide_eq_true_eq] at hc
+    exact ⟨le_of_lt hc, fun _ => hc⟩
+  · rename_i a b
+    simp only [Option.some.injEq] at hcb; subst hcb
+    simp only [C.eval, ho.lt, decide_eq_false_iff_not, not_lt] at hc
+    exact ⟨hc, fun h => by simp at h⟩
+  · rename_i a b
+    simp only [Option.some.injEq] at hcb; subst hcb
+    simp only [C.eval, ho.le, decide_eq_true_eq] at hc
+    exact ⟨hc, fun h => by simp at h⟩
+  · rename_i a b
+    simp only [Option.some.injEq] at hcb; subst hcb
+    simp only [C.eval, ho.le, decide_eq_false_iff_not, not_le] at hc
+    exact ⟨le_of_lt hc, fun _ => hc⟩
+  · cases hcb
+
+theorem reachLE_sound (ho : LinLike o) (env : Nat → α) {es : List (E × E × Bool)} (hes : EdgesHold o env es)
+    (n : Nat) (x y : E) (h : reachLE es n x y = true) : x.eval o env ≤ y.eval o env := by
+  induction n generalizing x with
+  | zero =>
+    simp only [reachLE, Bool.or_eq_true] at h
+    rcases h with h | h
+    · exact le_of_eq (nodeEq_sound ho env h)
+    · exact litLE_sound ho env h
+  | succ n ih =>
+    simp only [reachLE, Bool.or_eq_true, List.any_eq_true, Bool.and_eq_true] at h
+    rcases h with (h | h) | ⟨e, he, h1, h2⟩
+    · exact le_of_eq (nodeEq_sound ho env h)
+    · exact litLE_sound ho env h
+    · rw [← nodeEq_sound ho env h1]
+      exact le_trans (hes e he).1 (ih _ h2)
+
+theorem reachLT_sound (ho : LinLike o) (env : Nat → α) {es : List (E × E × Bool)} (hes : EdgesHold o env es)
+    (n : Nat) (x y : E) (h : reachLT es n x y = true) : x.eval o env < y.eval o env := by
+  induction n generalizing x with
+  | zero => exact litLT_sound ho env (by simpa [reachLT] using h)
+  | succ n ih =>
+    simp only [reachLT, Bool.or_eq_true, List.any_eq_true, Bool.and_eq_true] at h
+    rcases h with h | ⟨e, he, h1, h2⟩
+    · exact litLT_sound ho env h
+    · rw [← nodeEq_sound ho env h1]
+      rcases h2 with ⟨hs, h2⟩ | h2
+      · exact lt_of_lt_of_le ((hes e he).2 hs) (reachLE_sound ho env hes n _ _ h2)
+      · exact lt_of_le_of_lt (hes e he).1 (ih _ h2)
+
+theorem normCB_sound' (ho : LinLike o) (env : Nat → α) (n : Nat) (c : C) (b : Bool)
+    (h : c.eval o env = b) : PathHolds o env (normCB n c b) := by
+  induction n generalizing c b with
+  | zero => intro cb hcb; simp only [normCB, List.mem_singleton] at hcb; subst hcb; exact h
+  | succ n ih =>
+    cases c with
+    | not c => simp only [normCB]; exact ih c (!b) (by simp only [C.eval] at h; rw [← h]; simp)
+    | and x y =>
+      cases b with
+      | true =>
+        simp only [normCB]; simp only [C.eval, Bool.and_eq_true] at h
+        intro cb hcb; rcases List.mem_append.1 hcb with hcb | hcb
+        · exact ih x true h.1 cb hcb
+        · exact ih y true h.2 cb hcb
+      | false => intro cb hcb; simp only [normCB, List.mem_singleton] at hcb; subst hcb; exact h
+    | or x y =>
+      cases b with
+      | false =>
+        simp only [normCB]; simp only [C.eval, Bool.or_eq_false_iff] at h
+        intro cb hcb; rcases List.mem_append.1 hcb with hcb | hcb
+        · exact ih x false h.1 cb hcb
+        · exact ih y false h.2 cb hcb
+      | true => intro cb hcb; simp only [normCB, List.mem_singleton] at hcb; subst hcb; exact h
+    | eq x y =>
+      cases b with
+      | true =>
+        simp only [normCB]
+        have he : x.eval o env = y.eval o env := by simpa [C.eval, ho.eq] using h
+        intro cb hcb
+        simp only [List.mem_cons, List.not_mem_nil, or_false] at hcb
+        rcases hcb with rfl | rfl | rfl
+        · exact h
+        · simp [C.eval, ho.le, he]
+        · simp [C.eval, ho.le, he]
+      | false => intro cb hcb; simp only [normCB, List.mem_singleton] at hcb; subst hcb; exact h
+    | lt x y | le x y | isnan x | isinf x =>
+      intro cb hcb; simp only [normCB, List.mem_singleton] at hcb; subst hcb; exact h
+
+theorem normPath_sound' (ho : LinLike o) (env : Nat → α) {path : Path}
+    (hp : PathHolds o env path) : PathHolds o env (normPath path) := by
+  intro cb hcb
+  simp only [normPath, List.mem_flatMap] at hcb
+  obtain ⟨cb0, hmem, hin⟩ := hcb
+  exact normCB_sound' ho env 8 cb0.1 cb0.2 (hp cb0 hmem) cb hin
+
+theorem impliedAtomLin_sound (ho : LinLike o) (env : Nat → α) {np : Path}
+    (hp : PathHolds o env np) {c : C} {b : Bool} (h : impliedAtomLin np c = some b) : c.eval o env = b := by
+  have hes := pathEdges_sound ho env hp
+  cases c with
+  | lt x y =>
+    simp only [impliedAtomLin] at h
+    split at h
+    · rename_i h1; cases h; simpa [C.eval, ho.lt] using reachLT_sound ho env hes _ _ _ h1
+    · split at h
+      · rename_i h1; cases h; simpa [C.eval, ho.lt] using reachLE_sound ho env hes _ _ _ h1
+      · cases h
+  | le x y =>
+    simp only [impliedAtomLin] at h
+    split at h
+    · rename_i h1; cases h; simpa [C.eval, ho.le] using reachLE_sound ho env hes _ _ _ h1
+    · split at h
+      · rename_i h1; cases h; simpa [C.eval, ho.le] using reachLT_sound ho env hes _ _ _ h1
+      · cases h
+  | eq x y =>
+    simp only [impliedAtomLin] at h
+    split at h
+    · rename_i h1; cases h
+      rw [Bool.or_eq_true] at h1
+      simp only [C.eval, ho.eq, decide_eq_false_iff_not]
+      rcases h1 with h1 | h1
+      · exact ne_of_lt (reachLT_sound ho env hes _ _ _ h1)
+      · exact ne_of_gt (reachLT_sound ho env hes _ _ _ h1)
+    · split at h
+      · rename_i h1; cases h
+        rw [Bool.and_eq_true] at h1
+        simp only [C.eval, ho.eq, decide_eq_true_eq]
+        exact le_antisymm (reachLE_sound ho env hes _ _ _ h1.1) (reachLE_sound ho env hes _ _ _ h1.2)
+      · cases h
+  | _ => simp [impliedAtomLin] at h
+
+theorem impliedLin_sound (ho : LinLike o) (env : Nat → α) : ImpSound o env impliedLin := by
+  intro path c
+  have hr := ho.toRingLike
+  have atom : ∀ c : C, ∀ b, PathHolds o env path →
+      (match path.find? (fun cb => condOK c cb.1) with
+        | some cb => some cb.2
+        | none => impliedAtomLin (normPath path) c) = some b → c.eval o env = b := by
+    intro c b hp h
+    split at h
+    · rename_i cb hf
+      cases h
+      have hm := List.mem_of_find?_eq_some hf
+      have hc := List.find?_some hf
+      rw [condOK_sound_w hr env hc]; exact hp cb hm
+    · exact impliedAtomLin_sound ho env (normPath_sound' ho env hp) h
+  induction c with
+  | not c ih =>
+    intro b hp h
+    simp only [impliedLin, Option.map_eq_some_iff] at h
+    obtain ⟨b', hb', rfl⟩ := h
+    simp only [C.eval, ih b' hp hb']
+  | and x y ihx ihy =>
+    intro b hp h
+    simp only [impliedLin] at h
+    split at h
+    · rename_i hx; cases h; simp [C.eval, ihx false hp hx]
+    · rename_i hy _; cases h; simp [C.eval, ihy false hp hy]
+    · rename_i hx hy; cases h; simp [C.eval, ihx true hp hx, ihy true hp hy]
+    · cases h
+  | or x y ihx ihy =>
+    intro b hp h
+    simp only [impliedLin] at h
+    split at h
+    · rename_i hx; cases h; simp [C.eval, ihx true hp hx]
+    · rename_i hy _; cases h; simp [C.eval, ihy true hp hy]
+    · rename_i hx hy; cases h; simp [C.eval, ihx false hp hx, ihy false hp hy]
+    · cases h
+  | lt a b' | le a b' | eq a b' | isnan a | isinf a =>
+    intro b hp h
+    simp only [impliedLin] at h
+    exact atom _ b hp h
+
+theorem eqCandsLin_sound (ho : LinLike o) (env : Nat → α) {np : Path}
+    (hp : PathHolds o env np) {σ : E × E} (h : σ ∈ eqCandsLin np) : σ.1.eval o env = σ.2.eval o env := by
+  have hes := pathEdges_sound ho env hp
+  simp only [eqCandsLin, List.mem_filterMap] at h
+  obtain ⟨cb, _, hcb⟩ := h
+  split at hcb
+  all_goals first
+    | (split at hcb
+       · rename_i h1
+         simp only [Option.some.injEq] at hcb; subst hcb
+         rw [Bool.and_eq_true] at h1
+         exact le_antisymm (reachLE_sound ho env hes _ _ _ h1.1) (reachLE_sound ho env hes _ _ _ h1.2)
+       · cases hcb)
+    | cases hcb
+
+
+end lin
+
+section orderedLin
+variable {K : Type} [Field K] [LinearOrder K] [IsStrictOrderedRing K] {o : Ops K}
+
+theorem OrderedEqLike.linLike (ho : OrderedEqLike o) : LinLike o :=
+  { toRingLike := ho.toRingLike, lt := ho.lt, le := ho.le, eq := ho.eq,
+    lit_mono := fun n m _ h _ => by
+      rw [ho.toRingLike.lit, ho.toRingLike.lit]; exact_mod_cast h }
+
+/-- both oracles together: the arithmetic one (single fact + non-negative slack) and the transitive order one -/
+theorem impliedAll_sound (ho : OrderedEqLike o) (env : Nat → K) : ImpSound o env impliedAll := by
+  intro path c b hp h
+  unfold impliedAll at h
+  split at h
+  · rename_i b' hb'
+    cases h
+    exact implied_sound ho env true path c _ hp hb'
+  · exact impliedLin_sound ho.linLike env path c b hp h
+
+end orderedLin
+
 end Glm
